@@ -300,6 +300,27 @@ bool ecdsa_special(const Ec *k, int kind, const B &tsel, const B &rsel, B &diges
     BN_free(t); BN_free(nm1); BN_free(r); BN_free(e); BN_free(s); BN_free(two); BN_free(lim);
     return ok;
 }
+// A valid signature (r, s) with a CHOSEN s (e.g. a tiny one): pick nonce k from ksel, r = x(kG) mod n, digest e = s*k - r*d mod n.
+// Used to test range checks that compare s against the wrong bound (s + n can then still be below the field prime).
+bool ecdsa_chosen_s(const Ec *k, const B &ksel, const B &s_in, B &digest, Sig &out) {
+    CurveInfo &i = ci(k->c); const BIGNUM *d = EC_KEY_get0_private_key(k->k);
+    unsigned nbits = curve_order_bits(k->c); size_t dlen = nbits / 8;
+    BIGNUM *kk = tobn(ksel), *nm1 = BN_dup(i.n), *r = BN_new(), *e = BN_new(), *s = tobn(s_in), *t = BN_new(), *lim = BN_new();
+    BN_sub_word(nm1, 1); BN_nnmod(kk, kk, nm1, ctx()); BN_add_word(kk, 1);
+    BN_set_word(lim, 1); BN_lshift(lim, lim, (int) (8 * dlen));
+    bool ok = false;
+    if (!BN_is_zero(s) && BN_cmp(s, i.n) < 0) for (int tries = 0; tries < 64 && !ok; tries++, BN_add_word(kk, 1)) {
+        if (BN_cmp(kk, i.n) >= 0) BN_set_word(kk, 1);
+        EC_POINT *R = EC_POINT_new(i.g); EC_POINT_mul(i.g, R, kk, NULL, NULL, ctx()); EC_POINT_get_affine_coordinates(i.g, R, r, NULL, ctx()); EC_POINT_free(R);
+        BN_nnmod(r, r, i.n, ctx()); if (BN_is_zero(r)) continue;
+        BN_mod_mul(e, s, kk, i.n, ctx()); BN_mod_mul(t, r, d, i.n, ctx()); BN_mod_sub(e, e, t, i.n, ctx());
+        if (BN_is_zero(e) || BN_cmp(e, lim) >= 0) continue;
+        ok = true;
+    }
+    if (ok) { digest = frombn_pad(e, dlen); out.r = frombn(r); out.s = frombn(s); }
+    BN_free(kk); BN_free(nm1); BN_free(r); BN_free(e); BN_free(s); BN_free(t); BN_free(lim);
+    return ok;
+}
 int point_check(CurveId c, const B &oct) {
     CurveInfo &i = ci(c);
     if (oct.empty()) return 0;
